@@ -1,9 +1,18 @@
 package main
 
 import (
+	"bytes"
+	"context"
+	"encoding/json"
 	"fmt"
+	"go/types"
 	"os"
+	"os/exec"
+	"path/filepath"
+	"strings"
 	"time"
+
+	"golang.org/x/tools/go/ssa"
 )
 
 type Witness struct {
@@ -13,9 +22,653 @@ type Witness struct {
 	Confirmed bool
 }
 
-// concretise tries to turn a failed obligation into a concrete input that fails on the real code.
+const racPrelude = `package apd
+
+import (
+	"errors"
+	"fmt"
+	"math/big"
+	"math/rand"
+	"os"
+	"reflect"
+	"strconv"
+	"testing"
+	"time"
+)
+
+var _ = errors.New
+var _ = reflect.TypeOf
+var _ = strconv.Itoa
+var _ = time.Second
+
+func racBig(s string) *big.Int { n, _ := new(big.Int).SetString(s, 10); return n }
+func racI64(n *big.Int) int64 {
+	if !n.IsInt64() {
+		if n.Sign() < 0 {
+			return -1 << 62
+		}
+		return 1 << 62
+	}
+	return n.Int64()
+}
+func racPow(b int64, n *big.Int) *big.Int {
+	if n.Sign() < 0 || !n.IsInt64() || n.Int64() > 400000 {
+		return big.NewInt(0) // outside the domain of the spec function
+	}
+	return new(big.Int).Exp(big.NewInt(b), n, nil)
+}
+func racNd10(v *big.Int) *big.Int {
+	if v.Sign() == 0 {
+		return big.NewInt(1)
+	}
+	return big.NewInt(int64(len(new(big.Int).Abs(v).String())))
+}
+func racMin(a, b *big.Int) *big.Int {
+	if a.Cmp(b) <= 0 {
+		return a
+	}
+	return b
+}
+func racMax(a, b *big.Int) *big.Int {
+	if a.Cmp(b) >= 0 {
+		return a
+	}
+	return b
+}
+func racTDiv(a, b *big.Int) *big.Int {
+	if b.Sign() == 0 {
+		return big.NewInt(0)
+	}
+	return new(big.Int).Quo(a, b)
+}
+func racTMod(a, b *big.Int) *big.Int {
+	if b.Sign() == 0 {
+		return big.NewInt(0)
+	}
+	return new(big.Int).Rem(a, b)
+}
+func racEDiv(a, b *big.Int) *big.Int {
+	if b.Sign() == 0 {
+		return big.NewInt(0)
+	}
+	return new(big.Int).Div(a, b)
+}
+func racEMod(a, b *big.Int) *big.Int {
+	if b.Sign() == 0 {
+		return big.NewInt(0)
+	}
+	return new(big.Int).Mod(a, b)
+}
+func racWrap64(a *big.Int) *big.Int {
+	m := new(big.Int).Lsh(big.NewInt(1), 64)
+	r := new(big.Int).Mod(a, m)
+	if r.Cmp(new(big.Int).Lsh(big.NewInt(1), 63)) >= 0 {
+		r.Sub(r, m)
+	}
+	return r
+}
+func racWrap64u(a *big.Int) *big.Int {
+	return new(big.Int).Mod(a, new(big.Int).Lsh(big.NewInt(1), 64))
+}
+func racStr(s string) *big.Int {
+	if s == "" {
+		return big.NewInt(0)
+	}
+	var h uint64 = 14695981039346656037
+	for i := 0; i < len(s); i++ {
+		h ^= uint64(s[i])
+		h *= 1099511628211
+	}
+	return new(big.Int).SetUint64((h & ((1 << 40) - 1)) + (1 << 41))
+}
+func racAddr(x interface{}) *big.Int {
+	if x == nil {
+		return big.NewInt(0)
+	}
+	v := reflect.ValueOf(x)
+	switch v.Kind() {
+	case reflect.Ptr, reflect.UnsafePointer:
+		if v.IsNil() {
+			return big.NewInt(0)
+		}
+		return new(big.Int).SetUint64(uint64(v.Pointer()))
+	}
+	return big.NewInt(1)
+}
+func racIface(x interface{}) interface{} { return x }
+func racIdx(xs []int64, i int64) int64 {
+	if i < 0 || i >= int64(len(xs)) {
+		return 0
+	}
+	return xs[i]
+}
+func racRep(z *BigInt) bool {
+	if z == nil {
+		return true
+	}
+	if z._inner == negSentinel && z._inline == [inlineWords]big.Word{} {
+		return false
+	}
+	return true
+}
+func racSameDec(a, b *Decimal) bool {
+	return a.Form == b.Form && a.Negative == b.Negative && a.Exponent == b.Exponent && a.Coeff.Cmp(&b.Coeff) == 0
+}
+func racSame(a, b interface{}) bool {
+	switch x := a.(type) {
+	case *Decimal:
+		y := b.(*Decimal)
+		if x == nil || y == nil {
+			return x == y
+		}
+		return racSameDec(x, y)
+	case *BigInt:
+		y := b.(*BigInt)
+		if x == nil || y == nil {
+			return x == y
+		}
+		return x.Cmp(y) == 0
+	case *Context:
+		y := b.(*Context)
+		return *x == *y
+	case *ErrDecimal:
+		y := b.(*ErrDecimal)
+		return x.err == y.err && x.Ctx == y.Ctx && x.Flags == y.Flags
+	case *int64:
+		return *x == *b.(*int64)
+	}
+	return reflect.DeepEqual(a, b)
+}
+
+// ---- generators (seeded; boundary-heavy pools)
+
+var racCoeffs = []string{"0", "1", "2", "3", "5", "7", "9", "10", "15", "25", "45", "50", "55", "99", "100", "101", "125", "995", "999", "1000", "1234", "9995", "9999", "12345", "99995", "99999", "100000", "123456789", "999999999", "1000000001", "9223372036854775807", "9223372036854775808", "18446744073709551615", "18446744073709551616", "300000001", "5000001", "340282366920938463463374607431768211455", "340282366920938463463374607431768211456", "10000000000000000000000000000000000000001", "99999999999999999999999999999999999999999999"}
+var racExps = []int32{0, 0, 0, -1, 1, -2, 2, -3, 3, -5, 5, -7, 7, -8, -9, 10, -10, 19, -20, 38, -40}
+var racModes = []Rounder{RoundDown, RoundHalfUp, RoundHalfEven, RoundCeiling, RoundFloor, RoundHalfDown, RoundUp, Round05Up, "", "bogus"}
+var racInts = []int64{0, 1, -1, 2, 3, 5, 9, 10, -10, 100, 127, 128, 1000, 100000, -100000, 100001, -100001, 2147483647, -2147483648, 9223372036854775807, -9223372036854775808, 4294967295}
+
+func genBigInt(rng__ *rand.Rand) *BigInt {
+	z := new(BigInt)
+	z.SetString(racCoeffs[rng__.Intn(len(racCoeffs))], 10)
+	if rng__.Intn(3) == 0 {
+		z.Neg(z)
+	}
+	if rng__.Intn(6) == 0 {
+		// heap-resident representation of the same value
+		z.Lsh(z, 200)
+		z.Rsh(z, 200)
+	}
+	return z
+}
+func genDecimal(rng__ *rand.Rand) *Decimal {
+	d := new(Decimal)
+	d.Coeff.SetString(racCoeffs[rng__.Intn(len(racCoeffs))], 10)
+	d.Exponent = racExps[rng__.Intn(len(racExps))]
+	if rng__.Intn(40) == 0 {
+		d.Exponent = []int32{100000, -100000, 99999, -99990, 50000}[rng__.Intn(5)]
+	}
+	d.Negative = rng__.Intn(3) == 0
+	switch rng__.Intn(16) {
+	case 0:
+		d.Form = NaN
+	case 1:
+		d.Form = NaNSignaling
+	case 2:
+		d.Form = Infinite
+	case 3:
+		d.Form = Infinite
+		d.Coeff.SetInt64(0)
+		d.Exponent = 0
+	}
+	return d
+}
+func genContext(rng__ *rand.Rand) *Context {
+	c := new(Context)
+	c.Precision = []uint32{1, 2, 3, 3, 4, 5, 7, 9, 16, 0}[rng__.Intn(10)]
+	c.MinExponent = []int32{0, -1, -2, -5, -5, -10, -20, -100000}[rng__.Intn(8)]
+	c.MaxExponent = []int32{5, 10, 20, 100, 100000}[rng__.Intn(5)]
+	if int64(c.MaxExponent) < int64(c.Precision) {
+		c.MaxExponent = int32(c.Precision)
+	}
+	c.Rounding = racModes[rng__.Intn(len(racModes))]
+	c.Traps = []Condition{0, 0, Inexact, Rounded, DefaultTraps, Clamped, Subnormal, Inexact | Rounded, 4095}[rng__.Intn(9)]
+	return c
+}
+func genErrDecimal(rng__ *rand.Rand) *ErrDecimal {
+	e := &ErrDecimal{Ctx: genContext(rng__)}
+	if rng__.Intn(4) == 0 {
+		e.err = errors.New("pending")
+	}
+	if rng__.Intn(3) == 0 {
+		e.Flags = Condition(rng__.Intn(4096))
+	}
+	return e
+}
+func genInt(rng__ *rand.Rand) int64 { return racInts[rng__.Intn(len(racInts))] }
+func genSlice(rng__ *rand.Rand) []int64 {
+	n := rng__.Intn(4)
+	xs := make([]int64, n)
+	for i := range xs {
+		xs[i] = []int64{0, 1, -1, 2, -3, 5, -7, 100000, -100000, 100001, -100001}[rng__.Intn(11)]
+	}
+	return xs
+}
+func cpDec(d *Decimal) *Decimal {
+	if d == nil {
+		return nil
+	}
+	n := new(Decimal)
+	n.Form, n.Negative, n.Exponent = d.Form, d.Negative, d.Exponent
+	n.Coeff.Set(&d.Coeff)
+	return n
+}
+func cpBig(b *BigInt) *BigInt {
+	if b == nil {
+		return nil
+	}
+	return new(BigInt).Set(b)
+}
+func cpCtx(c *Context) *Context {
+	if c == nil {
+		return nil
+	}
+	n := *c
+	return &n
+}
+func cpErr(e *ErrDecimal) *ErrDecimal {
+	if e == nil {
+		return nil
+	}
+	n := *e
+	return &n
+}
+func cpI64(p *int64) *int64 {
+	if p == nil {
+		return nil
+	}
+	n := *p
+	return &n
+}
+func showDec(d *Decimal) string {
+	if d == nil {
+		return "nil"
+	}
+	c := d.Coeff.String()
+	if len(c) > 50 {
+		c = c[:20] + "..." + strconv.Itoa(len(c)) + "digits"
+	}
+	return fmt.Sprintf("{Form:%v Neg:%v Coeff:%s Exp:%d}", d.Form, d.Negative, c, d.Exponent)
+}
+func showCtx(c *Context) string {
+	if c == nil {
+		return "nil"
+	}
+	return fmt.Sprintf("{P:%d Emax:%d Emin:%d Traps:%d Rounding:%q}", c.Precision, c.MaxExponent, c.MinExponent, uint32(c.Traps), string(c.Rounding))
+}
+func showBig(b *BigInt) string {
+	if b == nil {
+		return "nil"
+	}
+	s := b.String()
+	if len(s) > 50 {
+		s = s[:20] + "..." + strconv.Itoa(len(s)) + "digits"
+	}
+	return fmt.Sprintf("%s(inline=%v)", s, b.isInline())
+}
+func racEnvInt(name string, def int) int {
+	if v, err := strconv.Atoi(os.Getenv(name)); err == nil {
+		return v
+	}
+	return def
+}
+`
+
+// racParam describes how one parameter is generated, copied and shown.
+type racParam struct {
+	name, goType, gen, cp, show string
+	ptrType                     string // for aliasing groups
+}
+
+func (W *World) racParams(fn *ssa.Function) ([]racParam, bool) {
+	var out []racParam
+	for _, p := range fn.Params {
+		t := p.Type()
+		n := p.Name()
+		rp := racParam{name: n}
+		switch {
+		case isPtrTo(t, "Decimal"):
+			rp.goType, rp.gen, rp.cp, rp.show, rp.ptrType = "*Decimal", "genDecimal(rng__)", "cpDec(%s)", "showDec(%s)", "Decimal"
+		case isPtrTo(t, "Context"):
+			rp.goType, rp.gen, rp.cp, rp.show, rp.ptrType = "*Context", "genContext(rng__)", "cpCtx(%s)", "showCtx(%s)", "Context"
+		case isPtrTo(t, "BigInt"):
+			rp.goType, rp.gen, rp.cp, rp.show, rp.ptrType = "*BigInt", "genBigInt(rng__)", "cpBig(%s)", "showBig(%s)", "BigInt"
+		case isPtrTo(t, "ErrDecimal"):
+			rp.goType, rp.gen, rp.cp, rp.show, rp.ptrType = "*ErrDecimal", "genErrDecimal(rng__)", "cpErr(%s)", "fmt.Sprintf(\"%%+v\", *%s)", "ErrDecimal"
+		case isCondition(t):
+			rp.goType, rp.gen, rp.show = "Condition", "Condition(rng__.Intn(4096))", "fmt.Sprint(uint32(%s))"
+		case isNamed(t, "Rounder"):
+			rp.goType, rp.gen, rp.show = "Rounder", "racModes[rng__.Intn(len(racModes))]", "fmt.Sprintf(\"%%q\", string(%s))"
+		default:
+			switch u := t.Underlying().(type) {
+			case *types.Basic:
+				switch {
+				case u.Info()&types.IsBoolean != 0:
+					rp.goType, rp.gen, rp.show = goTypeName(t), "rng__.Intn(2) == 0", "fmt.Sprint(%s)"
+				case u.Info()&types.IsInteger != 0:
+					rp.goType, rp.gen, rp.show = goTypeName(t), goTypeName(t)+"(genInt(rng__))", "fmt.Sprint(%s)"
+				default:
+					return nil, false
+				}
+			case *types.Slice:
+				if b, ok := u.Elem().(*types.Basic); ok && b.Kind() == types.Int64 {
+					rp.goType, rp.gen, rp.show = "[]int64", "genSlice(rng__)", "fmt.Sprint(%s)"
+				} else {
+					return nil, false
+				}
+			case *types.Pointer:
+				if b, ok := u.Elem().(*types.Basic); ok && b.Kind() == types.Int64 {
+					rp.goType, rp.gen, rp.cp, rp.show = "*int64", "func() *int64 { v := genInt(rng__); return &v }()", "cpI64(%s)", "fmt.Sprint(*%s)"
+				} else {
+					return nil, false
+				}
+			default:
+				return nil, false
+			}
+		}
+		out = append(out, rp)
+	}
+	return out, true
+}
+
+func isPtrTo(t types.Type, name string) bool {
+	p, ok := t.Underlying().(*types.Pointer)
+	return ok && isNamed(p.Elem(), name)
+}
+
+// racTest generates the in-package test that searches for (or replays) a concrete failing input.
+func (W *World) racTest(fn *ssa.Function, fc *FuncContract) (string, error) {
+	params, ok := W.racParams(fn)
+	if !ok {
+		return "", fmt.Errorf("parameters of %s cannot be generated", fc.Name)
+	}
+	var sb strings.Builder
+	sb.WriteString(racPrelude)
+	counter := 0
+	newEnv := func(post bool) *racEnv {
+		e := &racEnv{W: W, vars: map[string]gval{}, params: map[string]bool{}, n: &counter, layer1: fc.Layer1}
+		for i, p := range fn.Params {
+			k, el := kindOfGo(p.Type())
+			v := wrapScalar(params[i].name, p.Type())
+			v.k, v.elem = k, el
+			if k == gRef && params[i].cp != "" && post {
+				v.o = "old_" + params[i].name
+			}
+			if k == gRef || k == gSlice {
+				v.s = params[i].name
+			}
+			e.vars[params[i].name] = v
+			e.params[params[i].name] = true
+		}
+		return e
+	}
+	compile := func(e *racEnv, x Expr) (s string, err error) {
+		defer func() {
+			if r := recover(); r != nil {
+				err = fmt.Errorf("%v", r)
+			}
+		}()
+		return e.b(x), nil
+	}
+	sb.WriteString("\nfunc TestVerifReplay(tt__ *testing.T) {\n")
+	sb.WriteString("\tseed__ := int64(racEnvInt(\"VERIF_SEED\", 1))\n\ttrials__ := racEnvInt(\"RAC_TRIALS\", 30000)\n\tonly__ := racEnvInt(\"RAC_ONLY\", -1)\n")
+	sb.WriteString("\tdeadline__ := time.Now().Add(time.Duration(racEnvInt(\"RAC_SECONDS\", 25)) * time.Second)\n")
+	sb.WriteString("\tfor trial__ := 0; trial__ < trials__; trial__++ {\n\t\tif time.Now().After(deadline__) { break }\n")
+	sb.WriteString("\t\trng__ := rand.New(rand.NewSource(seed__*1000003 + int64(trial__)))\n\t\t_ = rng__\n")
+	for _, p := range params {
+		fmt.Fprintf(&sb, "\t\tvar %s %s = %s\n\t\t_ = %s\n", p.name, p.goType, p.gen, p.name)
+	}
+	// nil for nilable pointers, aliasing among same-typed pointers
+	for _, p := range params {
+		if fc.Nilable[p.name] {
+			fmt.Fprintf(&sb, "\t\tif rng__.Intn(4) == 0 { %s = nil }\n", p.name)
+		}
+	}
+	for i := range params {
+		for j := i + 1; j < len(params); j++ {
+			if params[i].ptrType != "" && params[i].ptrType == params[j].ptrType {
+				fmt.Fprintf(&sb, "\t\tif rng__.Intn(4) == 0 { %s = %s }\n", params[j].name, params[i].name)
+			}
+		}
+	}
+	sb.WriteString("\t\tif only__ >= 0 && trial__ != only__ { continue }\n")
+	// requires
+	pre := newEnv(false)
+	for _, rq := range fc.Requires {
+		s, err := compile(pre, rq.E)
+		if err != nil {
+			continue
+		}
+		fmt.Fprintf(&sb, "\t\tif !(%s) { continue }\n", s)
+	}
+	// non-nil defaults
+	for i, p := range fn.Params {
+		if _, isPtr := p.Type().Underlying().(*types.Pointer); isPtr && !fc.Nilable[params[i].name] {
+			fmt.Fprintf(&sb, "\t\tif %s == nil { continue }\n", params[i].name)
+		}
+	}
+	// describe + snapshot
+	sb.WriteString("\t\tdesc__ := \"\"\n")
+	for _, p := range params {
+		fmt.Fprintf(&sb, "\t\tdesc__ += \"%s=\" + %s + \" \"\n", p.name, fmt.Sprintf(p.show, p.name))
+	}
+	for i := range params {
+		for j := i + 1; j < len(params); j++ {
+			if params[i].ptrType != "" && params[i].ptrType == params[j].ptrType {
+				fmt.Fprintf(&sb, "\t\tif %s == %s { desc__ += \"[%s==%s] \" }\n", params[i].name, params[j].name, params[i].name, params[j].name)
+			}
+		}
+	}
+	for _, p := range params {
+		if p.cp != "" {
+			fmt.Fprintf(&sb, "\t\told_%s := %s\n\t\t_ = old_%s\n", p.name, fmt.Sprintf(p.cp, p.name), p.name)
+		}
+	}
+	// call with panic recovery and a watchdog
+	sig := fn.Signature
+	nres := sig.Results().Len()
+	var rets []string
+	for i := 0; i < nres; i++ {
+		rets = append(rets, fmt.Sprintf("ret%d", i))
+		fmt.Fprintf(&sb, "\t\tvar ret%d %s\n\t\t_ = ret%d\n", i, goTypeName(sig.Results().At(i).Type()), i)
+	}
+	var args []string
+	for _, p := range params {
+		args = append(args, p.name)
+	}
+	call := ""
+	if sig.Recv() != nil {
+		a := args[1:]
+		if sig.Variadic() && len(a) > 0 {
+			a[len(a)-1] += "..."
+		}
+		call = args[0] + "." + fn.Name() + "(" + strings.Join(a, ", ") + ")"
+	} else {
+		if sig.Variadic() && len(args) > 0 {
+			args[len(args)-1] += "..."
+		}
+		call = fn.Name() + "(" + strings.Join(args, ", ") + ")"
+	}
+	assign := ""
+	if nres > 0 {
+		assign = strings.Join(rets, ", ") + " = "
+	}
+	sb.WriteString("\t\tpanicked__ := interface{}(nil)\n\t\tdone__ := make(chan bool, 1)\n")
+	fmt.Fprintf(&sb, "\t\tgo func() {\n\t\t\tdefer func() { panicked__ = recover(); done__ <- true }()\n\t\t\t%s%s\n\t\t}()\n", assign, call)
+	sb.WriteString("\t\tselect {\n\t\tcase <-done__:\n\t\tcase <-time.After(10 * time.Second):\n\t\t\ttt__.Fatalf(\"RACFAIL trial=%d kind=hang input: %s\", trial__, desc__)\n\t\t}\n")
+	sb.WriteString("\t\tif panicked__ != nil {\n\t\t\ttt__.Fatalf(\"RACFAIL trial=%d kind=panic(%v) input: %s\", trial__, panicked__, desc__)\n\t\t}\n")
+	// ensures
+	post := newEnv(true)
+	for i := 0; i < nres; i++ {
+		v := wrapScalar(fmt.Sprintf("ret%d", i), sig.Results().At(i).Type())
+		if _, isIface := sig.Results().At(i).Type().Underlying().(*types.Interface); isIface {
+			v = gval{s: fmt.Sprintf("ret%d", i), k: gRef}
+		}
+		post.vars[fmt.Sprintf("ret%d", i)] = v
+		if i == 0 {
+			post.vars["ret"] = v
+			if _, clash := post.vars["result"]; !clash {
+				post.vars["result"] = v
+			}
+		}
+	}
+	for j, en := range fc.Ensures {
+		label := en.Name
+		if label == "" {
+			label = fmt.Sprintf("%d", j+1)
+		}
+		if mentionsUnknown(W, en.E, svalKeys(post.vars)) {
+			continue
+		}
+		s, err := compile(post, en.E)
+		if err != nil {
+			fmt.Fprintf(&sb, "\t\t// clause %s not compiled: %v\n", label, strings.ReplaceAll(err.Error(), "\n", " "))
+			continue
+		}
+		fmt.Fprintf(&sb, "\t\tif !(%s) {\n\t\t\ttt__.Fatalf(\"RACFAIL trial=%%d kind=post/%s input: %%s results: %%s\", trial__, desc__, fmt.Sprint(", s, label)
+		var shows []string
+		for i := 0; i < nres; i++ {
+			shows = append(shows, fmt.Sprintf("ret%d", i))
+		}
+		for _, p := range params {
+			if p.ptrType == "Decimal" {
+				shows = append(shows, fmt.Sprintf("\" %s'=\"+showDec(%s)", p.name, p.name))
+			}
+			if p.ptrType == "BigInt" {
+				shows = append(shows, fmt.Sprintf("\" %s'=\"+showBig(%s)", p.name, p.name))
+			}
+		}
+		if len(shows) == 0 {
+			shows = []string{"\"\""}
+		}
+		sb.WriteString(strings.Join(shows, ", "))
+		sb.WriteString("))\n\t\t}\n")
+	}
+	// frame: operands outside the assigns set are unchanged
+	assigned := map[string]bool{}
+	for _, ax := range fc.Assigns {
+		root := rootIdent(ax)
+		assigned[root] = true
+	}
+	if fc.HasAssigns {
+		for _, p := range params {
+			if p.cp == "" || assigned[p.name] {
+				continue
+			}
+			// an operand aliased with an assigned parameter may change
+			cond := "true"
+			for a := range assigned {
+				for _, q := range params {
+					if q.name == a && q.ptrType == p.ptrType && p.ptrType != "" {
+						cond += fmt.Sprintf(" && %s != %s", p.name, a)
+					}
+					if q.name == a && q.ptrType == "Decimal" && p.ptrType == "BigInt" {
+						cond += fmt.Sprintf(" && %s != &%s.Coeff", p.name, a)
+					}
+				}
+			}
+			fmt.Fprintf(&sb, "\t\tif %s != nil && %s && !racSame(%s, old_%s) {\n\t\t\ttt__.Fatalf(\"RACFAIL trial=%%d kind=frame/%s input: %%s\", trial__, desc__)\n\t\t}\n", p.name, cond, p.name, p.name, p.name)
+		}
+	}
+	sb.WriteString("\t}\n}\n")
+	return sb.String(), nil
+}
+
+func svalKeys(m map[string]gval) map[string]SVal {
+	out := map[string]SVal{}
+	for k := range m {
+		out[k] = SVal{}
+	}
+	return out
+}
+
+func rootIdent(x Expr) string {
+	switch x := x.(type) {
+	case *EIdent:
+		return x.Name
+	case *EField:
+		return rootIdent(x.X)
+	case *EUn:
+		return rootIdent(x.X)
+	case *EIndex:
+		return rootIdent(x.X)
+	}
+	return ""
+}
+
+// runRAC writes the test next to nothing in the repository (go test -overlay) and runs it.
+func runRAC(W *World, src string, env []string, timeout time.Duration) (string, error) {
+	dir, err := os.MkdirTemp("", "apdvc-rac")
+	if err != nil {
+		return "", err
+	}
+	defer os.RemoveAll(dir)
+	testFile := filepath.Join(dir, "zz_verif_replay_test.go")
+	os.WriteFile(testFile, []byte(src), 0o644)
+	ov := map[string]map[string]string{"Replace": {filepath.Join(W.repoDir, "zz_verif_replay_test.go"): testFile}}
+	ovData, _ := json.Marshal(ov)
+	ovFile := filepath.Join(dir, "overlay.json")
+	os.WriteFile(ovFile, ovData, 0o644)
+	ctx, cancel := context.WithTimeout(context.Background(), timeout)
+	defer cancel()
+	cmd := exec.CommandContext(ctx, "go", "test", "-overlay", ovFile, "-vet=off", "-count=1", "-timeout", "120s", "-run", "TestVerifReplay$", ".")
+	cmd.Dir = W.repoDir
+	cmd.Env = append(append(os.Environ(), "GOFLAGS=-mod=mod", "GOPROXY=off", "GOSUMDB=off", "GOTOOLCHAIN=local"), env...)
+	var out bytes.Buffer
+	cmd.Stdout = &out
+	cmd.Stderr = &out
+	err = cmd.Run()
+	return out.String(), err
+}
+
+// concretise searches for a concrete input on which the real code violates the contract of the
+// function the failed obligation belongs to, and returns it as a replayable witness.
 func concretise(W *World, o *Obligation, timeout time.Duration) *Witness {
-	return nil
+	fc := W.spec.Funcs[o.Fn]
+	fn := W.funcs[o.Fn]
+	if fc == nil || fn == nil {
+		return nil
+	}
+	src, err := W.racTest(fn, fc)
+	if err != nil {
+		return &Witness{Desc: map[string]interface{}{"note": err.Error()}}
+	}
+	seed := os.Getenv("VERIF_SEED")
+	if seed == "" {
+		seed = "1"
+	}
+	out, _ := runRAC(W, src, []string{"VERIF_SEED=" + seed}, 150*time.Second)
+	w := &Witness{Output: truncate(out, 3000)}
+	keep := filepath.Join(verifDir(), "replays", "tests")
+	os.MkdirAll(keep, 0o755)
+	w.TestFile = filepath.Join(keep, sanitize(o.Fn)+"_replay_test.go")
+	os.WriteFile(w.TestFile, []byte(src), 0o644)
+	for _, line := range strings.Split(out, "\n") {
+		if i := strings.Index(line, "RACFAIL "); i >= 0 {
+			msg := line[i+8:]
+			if strings.Contains(msg, "kind=hang") {
+				// a run that exceeds the watchdog may be slow rather than hung: reported, not counted as a confirmation
+				w.Desc = map[string]interface{}{"note": "an input exceeded the 10 s watchdog (slow or hung): " + msg, "seed": seed}
+				return w
+			}
+			w.Confirmed = true
+			trial := ""
+			fmt.Sscanf(msg, "trial=%s", &trial)
+			w.Desc = map[string]interface{}{"failing_input": msg, "trial": trial, "seed": seed, "function": o.Fn}
+			return w
+		}
+	}
+	w.Desc = map[string]interface{}{"note": "no concrete failing input among the sampled inputs", "seed": seed}
+	return w
 }
 
 func cmdReplay(args []string) {
@@ -26,6 +679,31 @@ func cmdReplay(args []string) {
 	if err != nil {
 		die("%v", err)
 	}
-	fmt.Println(string(data))
-	_ = time.Second
+	var rec map[string]interface{}
+	if err := json.Unmarshal(data, &rec); err != nil {
+		die("%v", err)
+	}
+	fmt.Printf("obligation: %v\nclause: %v\nsolver: %v (%v)\n", rec["obligation"], rec["clause"], rec["solver_status"], rec["backend"])
+	ce, _ := rec["counterexample"].(map[string]interface{})
+	tf, _ := rec["replay_test"].(string)
+	if ce == nil || tf == "" || ce["trial"] == nil {
+		fmt.Println("no concrete failing input was recorded (no-failing-input-found); solver output follows")
+		fmt.Println(rec["solver_output"])
+		os.Exit(1)
+	}
+	W, err := LoadWorld(repoDir())
+	if err != nil {
+		die("load: %v", err)
+	}
+	src, err := os.ReadFile(tf)
+	if err != nil {
+		die("%v", err)
+	}
+	out, _ := runRAC(W, string(src), []string{"VERIF_SEED=" + fmt.Sprint(ce["seed"]), "RAC_ONLY=" + fmt.Sprint(ce["trial"])}, 150*time.Second)
+	fmt.Println(out)
+	if strings.Contains(out, "RACFAIL") {
+		fmt.Println("REPLAY: the recorded input still violates the contract on the current tree")
+		os.Exit(1)
+	}
+	fmt.Println("REPLAY: the recorded input no longer fails on the current tree")
 }
